@@ -220,6 +220,9 @@ def encrypt_json(
             key = guess_key(public_key, recipient, True)
             key.check_use("enc")
             recipient.recipient_key = key
+        else:
+            # a key attached with ``add_recipient(header, key)`` must be an encryption key too
+            recipient.recipient_key.check_use("enc")
 
     perform_encrypt(obj, registry)
     if isinstance(obj, GeneralJSONEncryption):
